@@ -88,11 +88,16 @@ def run_stencils(spec, rec, dadi):
             rec.close("gradient-exact-onesided-linear", float(np.max(np.abs(GL - b))), tolg, site="Godambe.get_grad", tags=tags)
 
 
-def linear_model(dadi, B):
+def linear_model(dadi, B, pts_dependent=False):
     Spectrum = dadi.Spectrum
 
     def model(p, ns, pts):
-        return Spectrum(B @ np.asarray(p, float))
+        fs = B @ np.asarray(p, float)
+        if pts_dependent:
+            # a (mild) dependence on the grid setting, as every real model has: the same parameters at another grid are another spectrum
+            g = float(np.atleast_1d(pts)[0])
+            fs = fs * (1 + 2.0 / g) + 0.3 * (B[:, 0] > 0) / g
+        return Spectrum(fs)
     return model
 
 
@@ -256,7 +261,7 @@ def history_setup(dadi, seed):
     env = {}
     for name, k in (("M2", 2), ("M3", 3), ("M4", 4)):
         n, B, p0, data, boots, mid = make_linear_case(rng, dadi, k=k)
-        env[name] = {"model": linear_model(dadi, B), "p0": p0, "data": data, "boots": boots[:8], "k": k}
+        env[name] = {"model": linear_model(dadi, B, pts_dependent=True), "p0": p0, "data": data, "boots": boots[:8], "k": k}
     return env
 
 
@@ -266,19 +271,20 @@ def do_call(dadi, env, c):
     p = [float(v) for v in (np.asarray(e["p0"]) * np.asarray(c["scale"]))]
     kind = c["kind"]
     mn = bool(c.get("multinom", False))
+    G = list(c.get("pts", [10]))
     if kind == "FIM":
-        r = Godambe.FIM_uncert(e["model"], [10], p, e["data"], multinom=False, eps=c["eps"])
+        r = Godambe.FIM_uncert(e["model"], G, p, e["data"], multinom=False, eps=c["eps"])
     elif kind == "GIM":
-        r = Godambe.GIM_uncert(e["model"], [10], e["boots"], p, e["data"], multinom=False, eps=c["eps"])
+        r = Godambe.GIM_uncert(e["model"], G, e["boots"], p, e["data"], multinom=False, eps=c["eps"])
     elif kind == "LRT":
-        r = Godambe.LRT_adjust(e["model"], [10], e["boots"], p, e["data"], c["nested"], multinom=False, eps=c["eps"])
+        r = Godambe.LRT_adjust(e["model"], G, e["boots"], p, e["data"], c["nested"], multinom=False, eps=c["eps"])
     elif kind == "score":
-        r = Godambe.score_stat(e["model"], [10], e["boots"], p, e["data"], c["nested"], multinom=False, eps=c["eps"])
+        r = Godambe.score_stat(e["model"], G, e["boots"], p, e["data"], c["nested"], multinom=False, eps=c["eps"])
     elif kind == "Wald":
         full = list(p)
         for j in c["nested"]:
             full[j] *= 1.3
-        r = Godambe.Wald_stat(e["model"], [10], e["boots"], p, e["data"], c["nested"], full, multinom=False, eps=c["eps"])
+        r = Godambe.Wald_stat(e["model"], G, e["boots"], p, e["data"], c["nested"], full, multinom=False, eps=c["eps"])
     elif kind == "LRT-partial-multinom":
         # a model non-linear in its last parameter so that multinom=True is well posed
         base = e["model"]
@@ -286,7 +292,7 @@ def do_call(dadi, env, c):
         def nl(pp, ns, pts):
             q = list(pp[:-1]) + [pp[-1] ** 2]
             return base(q, ns, pts) / q[0]
-        r = Godambe.LRT_adjust(nl, [10], e["boots"], p, e["data"], c["nested"], multinom=True, eps=c["eps"])
+        r = Godambe.LRT_adjust(nl, G, e["boots"], p, e["data"], c["nested"], multinom=True, eps=c["eps"])
     return [float(v) for v in np.atleast_1d(np.asarray(r, float)).ravel()]
 
 
@@ -318,7 +324,14 @@ def run_history(spec, rec, dadi):
             for j in range(k):
                 if j not in nested and rng.random() < 0.7:
                     scale[j] = float(rng.choice([0.5, 0.8, 1.25, 2.0]))
-            calls.append({"model": mname, "kind": kind, "nested": nested, "scale": scale, "eps": 0.01})
+            # ... and the same parameters at another grid setting
+            calls.append({"model": mname, "kind": kind, "nested": nested, "scale": scale, "eps": 0.01, "pts": [int(rng.choice([10, 10, 20, 40]))]})
+        # every other history repeats one of its calls at another grid setting (same function, parameters and sample sizes)
+        if ci % 2 == 0:
+            j = int(rng.integers(len(calls)))
+            again = dict(calls[j], pts=[{10: 20, 20: 40, 40: 10}[calls[j]["pts"][0]]])
+            calls.insert(int(rng.integers(j + 1, len(calls) + 1)), again)
+            ncall = len(calls)
         if not rec.case("h-%d" % ci, {"calls": calls}, nontrivial=ncall >= 2):
             continue
         ok, together = rec.noraise("history-returns", lambda: fresh(calls, seed), site="Godambe", tags={"ncall": ncall})
